@@ -466,13 +466,438 @@ Proof.
               eexists; (split; [reflexivity|]); cbn; exact Ok ] ].
 Qed.
 
-(* full statement (not proved for the cache kind, see spec level_note):
-     forall cfg ops, wf cfg ops = true -> exists obs, run cfg ops = Some obs /\ holds_b cfg ops obs = true *)
-Theorem model_trace_holds_partial cfg ops : wf cfg ops = true -> cfg = [2] \/ cfg = [3] \/ cfg = [4] ->
+(* ================= bridge (timed TimeoutCache kind) ================= *)
+Definition proj (e : ent) : Z * Z * Z := (ekey e, eitem e, edl e).
+Definition pres (es : list ent) : list (Z * Z * Z) := map proj (filter ein es).
+(* between driver ops no callback is outstanding and every present entry's timer is armed *)
+Definition T (e : ent) : Prop := epend e = false /\ (ein e = true -> etm e = TArmed).
+
+Lemma plook_pres k es : plook k (pres es) = option_map proj (lookup k es).
+Proof.
+  unfold plook, pres, lookup. induction es as [|a es IH]; cbn; [reflexivity|].
+  destruct (ein a) eqn:Ea; cbn; [|exact IH]. destruct (ekey a =? k); [reflexivity|exact IH].
+Qed.
+Lemma pres_add es id v k dl : pres (es ++ [new_ent id v k dl]) = pres es ++ [(k, v, dl)].
+Proof. unfold pres. rewrite filter_app, map_app. reflexivity. Qed.
+Lemma pres_remove k es : pres (map (fun e => if ein e && (ekey e =? k) then removed e else e) es)
+  = filter (fun q => negb (pkey q =? k)) (pres es).
+Proof.
+  unfold pres. induction es as [|a es IH]; cbn; [reflexivity|].
+  destruct (ein a) eqn:Ea; cbn; [|rewrite Ea; exact IH].
+  destruct (ekey a =? k) eqn:Ek; cbn; [exact IH|]. rewrite Ea. cbn. rewrite IH. reflexivity.
+Qed.
+Lemma pres_clear_flush r es : pres (flush (map (fun e => if ein e then cleared r e else e) es)) = [].
+Proof.
+  unfold pres, flush. induction es as [|a es IH]; cbn; [reflexivity|].
+  destruct (ein a) eqn:Ea; cbn.
+  - destruct (epend a || r); cbn; exact IH.
+  - destruct (epend a); cbn; rewrite Ea; exact IH.
+Qed.
+Lemma pend_clear r es : Forall T es ->
+  pendids (map (fun e => if ein e then cleared r e else e) es) = if r then map pitem (pres es) else [].
+Proof.
+  unfold pendids, pres. induction 1 as [|a es (Ta & _) _ IH]; cbn; [destruct r; reflexivity|].
+  destruct (ein a) eqn:Ea; cbn; rewrite Ta; cbn.
+  - destruct r; cbn; [rewrite IH; reflexivity|exact IH].
+  - exact IH.
+Qed.
+Lemma pres_adv now es : Forall T es ->
+  pres (map (fun e => if due now e then expired e else e) es) = filter (fun p => negb (pdl p <=? now)) (pres es).
+Proof.
+  unfold pres, due. induction 1 as [|a es (_ & Ta) _ IH]; cbn; [reflexivity|].
+  destruct (ein a) eqn:Ea; cbn; [|rewrite Ea; exact IH].
+  rewrite (Ta eq_refl). cbn. destruct (edl a <=? now); cbn; [exact IH|]. rewrite Ea. cbn. rewrite IH. reflexivity.
+Qed.
+Lemma due_items now es : Forall T es ->
+  map eitem (filter (due now) es) = map pitem (filter (fun p => pdl p <=? now) (pres es)).
+Proof.
+  unfold pres, due. induction 1 as [|a es (_ & Ta) _ IH]; cbn; [reflexivity|].
+  destruct (ein a) eqn:Ea; cbn; [|exact IH].
+  rewrite (Ta eq_refl). cbn. destruct (edl a <=? now); cbn; [rewrite IH; reflexivity|exact IH].
+Qed.
+
+Lemma T_remove k es : Forall T es -> Forall T (map (fun e => if ein e && (ekey e =? k) then removed e else e) es).
+Proof.
+  intro H. apply Forall_forall. intros y Hy. apply in_map_iff in Hy. destruct Hy as (e & <- & He).
+  rewrite Forall_forall in H. destruct (H e He) as (A & B).
+  destruct (ein e && (ekey e =? k)); [|split; auto]. split; cbn; [exact A|discriminate].
+Qed.
+Lemma T_clear_flush r es : Forall T es -> Forall T (flush (map (fun e => if ein e then cleared r e else e) es)).
+Proof.
+  intro H. unfold flush. rewrite map_map. apply Forall_forall. intros y Hy. apply in_map_iff in Hy.
+  destruct Hy as (e & <- & He). rewrite Forall_forall in H. destruct (H e He) as (A & B).
+  destruct (ein e) eqn:Ea; cbn.
+  - destruct (epend e || r) eqn:G; (split; [cbn; rewrite ?G; reflexivity|cbn; discriminate]).
+  - rewrite A. split; [exact A|rewrite Ea; discriminate].
+Qed.
+Lemma T_adv now es : Forall T es -> Forall T (map (fun e => if due now e then expired e else e) es).
+Proof.
+  intro H. apply Forall_forall. intros y Hy. apply in_map_iff in Hy. destruct Hy as (e & <- & He).
+  rewrite Forall_forall in H. destruct (H e He) as (A & B).
+  destruct (due now e); [|split; auto]. split; cbn; [reflexivity|discriminate].
+Qed.
+
+(* -- the monitor's own invariant: items of present entries are pairwise distinct, none of them
+      is in gone, and everything was introduced by an earlier Add (seen) -- *)
+Definition M (m : mon1) (seen : list Z) : Prop :=
+  NoDup (map pitem (mpres m)) /\ (forall p, In p (mpres m) -> ~ In (pitem p) (mgone m)) /\
+  (forall p, In p (mpres m) -> In (pitem p) seen) /\ (forall x, In x (mgone m) -> In x seen).
+
+Lemma memz_in x l : memz x l = true <-> In x l.
+Proof.
+  induction l as [|y r IH]; cbn; [split; [discriminate|tauto]|].
+  rewrite orb_true_iff, IH, Z.eqb_eq. split; intros [H|H]; auto.
+Qed.
+Lemma memz_not_in x l : memz x l = false <-> ~ In x l.
+Proof. rewrite <- memz_in. destruct (memz x l); split; auto; try discriminate. intro H. exfalso. auto. Qed.
+Lemma wani w l : (forall x, In x w -> ~ In x l) -> word_all_not_in w l = true.
+Proof.
+  induction w as [|x r IH]; cbn; intro H; [reflexivity|].
+  rewrite (proj2 (memz_not_in x l)) by (apply H; auto). cbn. apply IH. intros y Hy. apply H. auto.
+Qed.
+Lemma in_insert_sorted x y l : In x (insert_sorted y l) -> x = y \/ In x l.
+Proof.
+  induction l as [|z r IH]; cbn; [intros [H|[]]; auto|].
+  destruct (y <=? z); cbn; intros [H|H]; auto. destruct (IH H); auto.
+Qed.
+Lemma in_sortz x l : In x (sortz l) -> In x l.
+Proof.
+  induction l as [|y r IH]; cbn; [tauto|]. intro H. apply in_insert_sorted in H. destruct H; auto.
+Qed.
+Lemma nodup_inj {A} (f : A -> Z) l a b : NoDup (map f l) -> In a l -> In b l -> f a = f b -> a = b.
+Proof.
+  induction l as [|c l IH]; intros Nd H1 H2 E; [destruct H1|].
+  cbn in Nd. inv Nd. destruct H1 as [<-|H1], H2 as [<-|H2]; auto.
+  - exfalso. apply H3. rewrite E. apply in_map. exact H2.
+  - exfalso. apply H3. rewrite <- E. apply in_map. exact H1.
+Qed.
+Lemma nodup_map_filter {A} (f : A -> Z) q l : NoDup (map f l) -> NoDup (map f (filter q l)).
+Proof.
+  induction l as [|c l IH]; cbn; intro Nd; [constructor|]. inv Nd.
+  destruct (q c); cbn; auto. constructor; auto. intro H. apply H1.
+  apply in_map_iff in H. destruct H as (x & E & Hx). apply filter_In in Hx. rewrite <- E. apply in_map. tauto.
+Qed.
+
+Lemma nodup_snoc (l : list Z) a : NoDup l -> ~ In a l -> NoDup (l ++ [a]).
+Proof.
+  induction 1 as [|y l Hy Hl IH]; cbn; intro N; [constructor; [tauto|constructor]|].
+  constructor; [|apply IH; tauto]. rewrite in_app_iff. cbn. intros [X|[X|[]]]; [tauto|]. subst. tauto.
+Qed.
+
+Definition R (c : cst) (m : mon1) : Prop :=
+  mnow m = cnow c /\ mtmo m = ctmo c /\ mpres m = pres (cents c) /\ Forall T (cents c).
+
+Definition stepok (c : cst) (m : mon1) (op : word) (seen' : list Z) : Prop :=
+  exists c' o m' cs, cstep c op = Some (c', o) /\ clause1 m op o = (m', cs) /\ all_ok cs = true /\
+                     R c' m' /\ M m' seen'.
+
+Lemma step_add c m seen k v : R c m -> M m seen -> ~ In v seen -> stepok c m [1; k; v] (v :: seen).
+Proof.
+  intros (Rn & Rt & Rp & RT) (M1 & M2 & M3 & M4) Nv. destruct c as [es now tmo], m as [pr gone mn mt].
+  cbn [cents cnow ctmo mpres mgone mnow mtmo] in Rn, Rt, Rp, RT, M1, M2, M3, M4. subst mn mt pr.
+  unfold stepok. cbn [cstep clause1 cents cnow ctmo mpres mgone mnow mtmo xstep].
+  rewrite plook_pres. destruct (lookup k es) as [e|] eqn:L; cbn [option_map].
+  - do 4 eexists. split; [reflexivity|]. split; [reflexivity|]. split; [cbn; rewrite !Z.eqb_refl; reflexivity|].
+    split; [repeat split; auto|]. repeat split; cbn; auto.
+  - do 4 eexists. split; [reflexivity|]. split; [reflexivity|]. split; [cbn; rewrite !Z.eqb_refl; reflexivity|].
+    split.
+    + repeat split; cbn [mnow mtmo mpres cents cnow ctmo]; auto. rewrite pres_add. reflexivity.
+      apply Forall_app. split; [exact RT|]. constructor; [|constructor]. split; cbn; auto.
+    + unfold M. cbn [mpres mgone]. split; [|split; [|split]].
+      * rewrite map_app. cbn [map pitem fst snd]. apply nodup_snoc; [exact M1|].
+        intro H. apply in_map_iff in H. destruct H as (p & E & Hp). apply Nv. rewrite <- E. apply M3, Hp.
+      * intros p Hp. apply in_app_or in Hp. destruct Hp as [Hp|[<-|[]]]; [apply M2, Hp|].
+        cbn. intro H. apply Nv, M4, H.
+      * intros p Hp. apply in_app_or in Hp. destruct Hp as [Hp|[<-|[]]]; [right; apply M3, Hp|left; reflexivity].
+      * intros x Hx. right. apply M4, Hx.
+Qed.
+
+Lemma step_remove c m seen k : R c m -> M m seen -> stepok c m [2; k] seen.
+Proof.
+  intros (Rn & Rt & Rp & RT) (M1 & M2 & M3 & M4). destruct c as [es now tmo], m as [pr gone mn mt].
+  cbn [cents cnow ctmo mpres mgone mnow mtmo] in Rn, Rt, Rp, RT, M1, M2, M3, M4. subst mn mt pr.
+  unfold stepok. cbn [cstep clause1 cents cnow ctmo mpres mgone mnow mtmo xstep].
+  rewrite plook_pres. destruct (lookup k es) as [e|] eqn:L; cbn [option_map].
+  - do 4 eexists. split; [reflexivity|]. split; [reflexivity|]. split; [cbn; rewrite !Z.eqb_refl; reflexivity|].
+    split.
+    + repeat split; cbn [mnow mtmo mpres cents cnow ctmo]; auto. rewrite pres_remove. reflexivity.
+      apply T_remove, RT.
+    + assert (Hp : In (proj e) (pres es) /\ pkey (proj e) = k).
+      { apply find_some in L. destruct L as (He & G). apply andb_true_iff in G. destruct G as (G1 & G2).
+        apply Z.eqb_eq in G2. split; [|exact G2]. unfold pres. apply in_map. apply filter_In. auto. }
+      destruct Hp as (Hp & Kp).
+      unfold M. cbn [mpres mgone]. split; [|split; [|split]].
+      * apply nodup_map_filter, M1.
+      * intros q Hq. apply filter_In in Hq. destruct Hq as (Hq & Nk). intros [E|G]; [|exact (M2 q Hq G)].
+        assert (proj e = q) by (eapply nodup_inj; eauto). subst q. rewrite Kp, Z.eqb_refl in Nk. discriminate Nk.
+      * intros q Hq. apply filter_In in Hq. apply M3. tauto.
+      * intros x [<-|Hx]; [apply M3, Hp|apply M4, Hx].
+  - do 4 eexists. split; [reflexivity|]. split; [reflexivity|]. split; [cbn; reflexivity|].
+    split; [repeat split; auto|]. repeat split; cbn; auto.
+Qed.
+
+Lemma step_clear c m seen r : R c m -> M m seen -> stepok c m [3; r] seen.
+Proof.
+  intros (Rn & Rt & Rp & RT) (M1 & M2 & M3 & M4). destruct c as [es now tmo], m as [pr gone mn mt].
+  cbn [cents cnow ctmo mpres mgone mnow mtmo] in Rn, Rt, Rp, RT, M1, M2, M3, M4. subst mn mt pr.
+  unfold stepok. cbn [cstep clause1 cents cnow ctmo mpres mgone mnow mtmo xstep fst].
+  rewrite (pend_clear _ es RT).
+  do 4 eexists. split; [reflexivity|]. split; [reflexivity|]. split; [|split].
+  - cbn [all_ok forallb snd]. rewrite wani.
+    + cbn [andb]. destruct (r =? 0); cbn [negb]; rewrite word_eqb_refl; reflexivity.
+    + intros x Hx. apply in_sortz in Hx. destruct (negb (r =? 0)); [|destruct Hx].
+      apply in_map_iff in Hx. destruct Hx as (p & <- & Hp). apply M2, Hp.
+  - repeat split; cbn [mnow mtmo mpres cents cnow ctmo]; auto. rewrite pres_clear_flush. reflexivity.
+    apply T_clear_flush, RT.
+  - unfold M. cbn [mpres mgone]. split; [constructor|]. split; [intros p []|]. split; [intros p []|].
+    intros x Hx. apply in_app_or in Hx. destruct Hx as [Hx|Hx]; [|apply M4, Hx].
+    apply in_map_iff in Hx. destruct Hx as (p & <- & Hp). apply M3, Hp.
+Qed.
+
+Lemma step_adv c m seen d : R c m -> M m seen -> 0 <= d -> stepok c m [4; d] seen.
+Proof.
+  intros (Rn & Rt & Rp & RT) (M1 & M2 & M3 & M4) Hd. destruct c as [es now tmo], m as [pr gone mn mt].
+  cbn [cents cnow ctmo mpres mgone mnow mtmo] in Rn, Rt, Rp, RT, M1, M2, M3, M4. subst mn mt pr.
+  unfold stepok. cbn [cstep clause1 cents cnow ctmo mpres mgone mnow mtmo].
+  assert (d <? 0 = false) as -> by (apply Z.ltb_ge; lia).
+  rewrite (due_items (now + d) es RT).
+  do 4 eexists. split; [reflexivity|]. split; [reflexivity|]. split; [|split].
+  - cbn [all_ok forallb snd]. rewrite wani, word_eqb_refl; [reflexivity|].
+    intros x Hx. apply in_sortz in Hx. apply in_map_iff in Hx. destruct Hx as (p & <- & Hp).
+    apply filter_In in Hp. apply M2. tauto.
+  - repeat split; cbn [mnow mtmo mpres cents cnow ctmo]; auto. rewrite (pres_adv _ _ RT). reflexivity.
+    apply T_adv, RT.
+  - unfold M. cbn [mpres mgone]. split; [|split; [|split]].
+    + apply nodup_map_filter, M1.
+    + intros q Hq. apply filter_In in Hq. destruct Hq as (Hq & Nd). intro G. apply in_app_or in G.
+      destruct G as [G|G]; [|exact (M2 q Hq G)].
+      apply in_map_iff in G. destruct G as (p & E & Hp). apply filter_In in Hp. destruct Hp as (Hp & Dp).
+      assert (p = q) by (eapply nodup_inj; eauto). subst q. rewrite Dp in Nd. discriminate Nd.
+    + intros q Hq. apply filter_In in Hq. apply M3. tauto.
+    + intros x Hx. apply in_app_or in Hx. destruct Hx as [Hx|Hx]; [|apply M4, Hx].
+      apply in_map_iff in Hx. destruct Hx as (p & <- & Hp). apply filter_In in Hp. apply M3. tauto.
+Qed.
+
+Lemma step_len c m seen : R c m -> M m seen -> stepok c m [5] seen.
+Proof.
+  intros (Rn & Rt & Rp & RT) HM. unfold stepok. cbn [cstep clause1].
+  do 4 eexists. split; [reflexivity|]. split; [reflexivity|]. split; [|split; [repeat split; auto|exact HM]].
+  cbn [all_ok forallb snd]. rewrite Rp. unfold pres. rewrite map_length, word_eqb_refl. reflexivity.
+Qed.
+
+Lemma M_weaken m seen v : M m seen -> M m (v :: seen).
+Proof. intros (M1 & M2 & M3 & M4). repeat split; auto; intros; right; auto. Qed.
+
+Lemma bridge_cache : forall ops c m seen, wf1 seen ops = true -> R c m -> M m seen ->
+  exists obs, cexec c ops = Some obs /\ all_ok (clauses1 m ops obs) = true.
+Proof.
+  induction ops as [|op r IH]; intros c m seen W HR HM; [exists []; auto|].
+  assert (X : exists seen', stepok c m op seen' /\ wf1 seen' r = true).
+  { cbn [wf1] in W. zcases W.
+    all: first
+      [ solve [ exists seen; split; [apply step_len; assumption|exact W] ]
+      | solve [ apply andb_true_iff in W; destruct W as (W1 & W2); apply Z.leb_le in W1;
+                exists seen; split; [apply step_adv; assumption|exact W2] ]
+      | solve [ exists seen; split; [apply step_clear; assumption|exact W] ]
+      | solve [ exists seen; split; [apply step_remove; assumption|exact W] ]
+      | solve [ apply andb_true_iff in W; destruct W as (W1 & W2); apply negb_true_iff in W1;
+                apply memz_not_in in W1; eexists; split; [apply step_add; eassumption|exact W2] ] ]. }
+  destruct X as (seen' & (c' & o & m' & cs & CS & CL & Ok & R' & M') & W').
+  destruct (IH c' m' seen' W' R' M') as (obs & E & Ok2).
+  exists (o :: obs). cbn [cexec clauses1]. rewrite CS, E, CL. split; [reflexivity|].
+  rewrite all_ok_app, Ok, Ok2. reflexivity.
+Qed.
+
+Theorem model_trace_holds cfg ops : wf cfg ops = true ->
   exists obs, run cfg ops = Some obs /\ holds_b cfg ops obs = true.
 Proof.
-  intros W [->|[->| ->]]; cbn in W; unfold run, holds_b, clauses.
-  - exact (bridge_event ops evs0 W eq_refl eq_refl).
-  - apply (bridge_rc ops rcs0 (mkm3 1 true) W). intros _. cbn. unfold max_i32. repeat split; lia.
-  - exact (bridge_window ops W).
+  intro W. unfold wf in W. zcases W; unfold run, holds_b, clauses.
+  all: first
+    [ exact (bridge_event ops evs0 W eq_refl eq_refl)
+    | solve [ apply (bridge_rc ops rcs0 (mkm3 1 true) W); intros _; cbn; unfold max_i32; repeat split; lia ]
+    | exact (bridge_window ops W)
+    | idtac ].
+  apply andb_true_iff in W. destruct W as (W1 & W2). apply Z.leb_le in W1.
+  match goal with |- context[?z <? 1] => assert (z <? 1 = false) as -> by (apply Z.ltb_ge; lia) end.
+  eapply bridge_cache; [exact W2| |].
+  - repeat split. constructor.
+  - repeat split; cbn; auto. constructor.
+Qed.
+
+(* ================= the timed driver semantics is a special interleaving =================
+   every timed op (cstep) is a sequence of fine-grained atomic steps: Clear = XClear followed by the
+   outstanding callbacks; advancing time = for every due entry, the runtime fires its timer, the
+   timer function runs and the callback runs.  Hence every state the driver semantics reaches is
+   xsteps [] l for some l and the per-interleaving theorems apply to it. *)
+Fixpoint crun (c : cst) (ops : list word) : option cst :=
+  match ops with
+  | [] => Some c
+  | op :: r => match cstep c op with Some (c', _) => crun c' r | None => None end
+  end.
+
+Lemma xsteps_app : forall a es b, xsteps es (a ++ b) = xsteps (xsteps es a) b.
+Proof. induction a as [|o a IH]; intros es b; cbn; [reflexivity|apply IH]. Qed.
+
+Lemma cb_all : forall ids es,
+  xsteps es (map XCb ids) = map (fun e => if memz (eid e) ids && epend e then cbrun e else e) es.
+Proof.
+  induction ids as [|v ids IH]; intro es; cbn [map xsteps xstep fst].
+  - cbn. rewrite map_id. reflexivity.
+  - rewrite IH, map_map. apply map_ext. intro e. cbn [memz].
+    destruct (eid e =? v) eqn:E; destruct (epend e) eqn:P; cbn; rewrite ?P, ?andb_false_r; reflexivity.
+Qed.
+Lemma flush_fine es : flush es = xsteps es (map XCb (map eid es)).
+Proof.
+  rewrite cb_all. unfold flush. apply map_ext_in. intros e He.
+  rewrite (proj2 (memz_in (eid e) (map eid es)) (in_map eid es e He)). reflexivity.
+Qed.
+
+Definition tri (v : Z) : list xop := [XFire v; XRun v; XCb v].
+Lemma byid_unique es e0 : NoDup (map eid es) -> In e0 es -> byid (eid e0) es = Some e0.
+Proof.
+  intros Nd H. unfold byid. destruct (find (fun e => eid e =? eid e0) es) as [e|] eqn:F.
+  - apply find_some in F. destruct F as (He & E). apply Z.eqb_eq in E. f_equal. eapply nodup_id_eq; eauto.
+  - pose proof (find_none _ _ F e0 H) as X. cbn in X. rewrite Z.eqb_refl in X. discriminate X.
+Qed.
+Lemma byid_map v f es : (forall e, eid (f e) = eid e) ->
+  byid v (map (fun e => if eid e =? v then f e else e) es) = option_map f (byid v es).
+Proof.
+  intro Hf. unfold byid. induction es as [|a es IH]; cbn; [reflexivity|].
+  destruct (eid a =? v) eqn:E; [rewrite Hf, E; reflexivity|rewrite E; exact IH].
+Qed.
+
+Lemma expire_one es e0 : cache_inv es -> In e0 es -> ein e0 = true -> etm e0 = TArmed ->
+  xsteps es (tri (eid e0)) = map (fun e => if eid e =? eid e0 then expired e else e) es.
+Proof.
+  intros (Ok & U & Nd & _) H0 I0 T0. rewrite Forall_forall in Ok.
+  assert (D0 : edel e0 = false /\ epend e0 = false).
+  { specialize (Ok e0 H0). revert Ok I0. clear. destruct e0 as [i it k d t n dl p w c r cl]. unfold ent_ok. cbn.
+    intros X ->. tauto. }
+  destruct D0 as (D0 & P0).
+  set (es1 := map (fun e => if eid e =? eid e0 then fire e else e) es).
+  assert (B : byid (eid e0) es1 = Some (fire e0)).
+  { unfold es1. rewrite (byid_map (eid e0) fire es) by reflexivity. rewrite (byid_unique es e0 Nd H0). reflexivity. }
+  set (es2 := map (fun e => let e1 := if eid e =? eid e0 then ran e else e in
+                            if ein e1 && (ekey e1 =? ekey e0) then unmap e1 else e1) es1).
+  assert (S2 : fst (xstep es1 (XRun (eid e0))) = es2).
+  { assert (F1 : tm_eqb (etm (fire e0)) TFired = true) by (cbn; rewrite T0; reflexivity).
+    assert (F2 : edel (fire e0) = false) by exact D0.
+    cbn [xstep]. rewrite B, F1, F2. reflexivity. }
+  change (xsteps es (tri (eid e0))) with (fst (xstep (fst (xstep es1 (XRun (eid e0)))) (XCb (eid e0)))).
+  rewrite S2. cbn [xstep fst]. unfold es2, es1. rewrite !map_map. apply map_ext_in. intros e He.
+  destruct (eid e =? eid e0) eqn:E.
+  - apply Z.eqb_eq in E. assert (e = e0) by (eapply nodup_id_eq; eauto). subst e.
+    cbn [eid fire]. rewrite Z.eqb_refl. cbn [ein ran fire ekey]. rewrite I0, Z.eqb_refl. cbn [andb].
+    cbn [eid unmap ran fire epend edel]. rewrite Z.eqb_refl, D0, P0. cbn. reflexivity.
+  - rewrite E. destruct (ein e && (ekey e =? ekey e0)) eqn:G.
+    + exfalso. apply andb_true_iff in G. destruct G as (G1 & G2). apply Z.eqb_eq in G2.
+      apply Z.eqb_neq in E. apply E. apply U; auto.
+    + rewrite E. reflexivity.
+Qed.
+
+Lemma expire_many : forall vs es, cache_inv es -> NoDup vs ->
+  (forall v, In v vs -> exists e0, In e0 es /\ eid e0 = v /\ ein e0 = true /\ etm e0 = TArmed) ->
+  xsteps es (flat_map tri vs) = map (fun e => if memz (eid e) vs then expired e else e) es.
+Proof.
+  induction vs as [|v vs IH]; intros es I Nd H; cbn [flat_map].
+  - cbn. rewrite map_id. reflexivity.
+  - inv Nd. destruct (H v (or_introl eq_refl)) as (e0 & H0 & <- & I0 & T0).
+    rewrite xsteps_app. pose proof (xsteps_inv (tri (eid e0)) es I) as I1.
+    rewrite (expire_one es e0 I H0 I0 T0) in *.
+    rewrite IH; [|exact I1|assumption|].
+    + rewrite map_map. apply map_ext. intro e. cbn [memz]. destruct (eid e =? eid e0) eqn:E; cbn [orb]; [|reflexivity].
+      apply Z.eqb_eq in E. cbn [eid expired cbrun unmap ran fire]. rewrite E.
+      rewrite (proj2 (memz_not_in (eid e0) vs)) by assumption. reflexivity.
+    + intros v' Hv'. destruct (H v' (or_intror Hv')) as (e1 & H1' & E1 & I1' & T1).
+      exists e1. split; [|auto]. apply in_map_iff. exists e1. split; [|exact H1'].
+      destruct (eid e1 =? eid e0) eqn:E; [|reflexivity]. apply Z.eqb_eq in E. exfalso. congruence.
+Qed.
+
+Lemma advance_fine now es : cache_inv es ->
+  map (fun e => if due now e then expired e else e) es =
+  xsteps es (flat_map tri (map eid (filter (due now) es))).
+Proof.
+  intro I. pose proof I as (_ & _ & Nd & _). rewrite expire_many; [|exact I|apply nodup_map_filter, Nd|].
+  - apply map_ext_in. intros e He. destruct (due now e) eqn:D.
+    + rewrite (proj2 (memz_in _ _)); [reflexivity|]. apply in_map. apply filter_In. auto.
+    + rewrite (proj2 (memz_not_in _ _)); [reflexivity|]. intro X. apply in_map_iff in X.
+      destruct X as (e' & E & He'). apply filter_In in He'. destruct He' as (He' & D').
+      assert (e' = e) by (eapply nodup_id_eq; eauto). subst e'. congruence.
+  - intros v Hv. apply in_map_iff in Hv. destruct Hv as (e & <- & He). apply filter_In in He.
+    destruct He as (He & D). unfold due in D. apply andb_true_iff in D. destruct D as (D & _).
+    apply andb_true_iff in D. destruct D as (D1 & D2). exists e. repeat split; auto.
+    destruct (etm e); try discriminate D2; reflexivity.
+Qed.
+
+Lemma cstep_fine c op c' o : cache_inv (cents c) -> cstep c op = Some (c', o) ->
+  exists l, cents c' = xsteps (cents c) l.
+Proof.
+  intros I H. unfold cstep in H. zcases H.
+  all: first
+    [ solve [ inv H; exists []; reflexivity ]
+    | solve [ match type of H with context[xstep ?es ?x] =>
+                destruct (xstep es x) as [es' [it ok]] eqn:E; inv H; exists [x]; cbn [xsteps cents]; rewrite E; reflexivity end ]
+    | solve [ match type of H with context[xstep ?es ?x] =>
+                inv H; exists (x :: map XCb (map eid (fst (xstep es x)))); cbn [xsteps cents]; apply flush_fine end ]
+    | solve [ match type of H with context[?d <? 0] => destruct (d <? 0); [discriminate H|] end;
+              inv H; eexists; cbn [cents]; apply advance_fine; exact I ] ].
+Qed.
+
+Theorem timed_is_interleaving : forall ops c c', cache_inv (cents c) -> crun c ops = Some c' ->
+  exists l, cents c' = xsteps (cents c) l.
+Proof.
+  induction ops as [|op r IH]; intros c c' I H; cbn [crun] in H; [inv H; exists []; reflexivity|].
+  destruct (cstep c op) as [[c1 o]|] eqn:E; [|discriminate H].
+  destruct (cstep_fine c op c1 o I E) as (l1 & E1).
+  assert (I1 : cache_inv (cents c1)) by (rewrite E1; apply xsteps_inv, I).
+  destruct (IH c1 c' I1 H) as (l2 & E2). exists (l1 ++ l2). rewrite xsteps_app, <- E1. exact E2.
+Qed.
+
+(* the states of the driver semantics: prefixes of the run that produced the model trace *)
+Lemma cexec_crun : forall ops c obs, cexec c ops = Some obs -> exists c', crun c ops = Some c'.
+Proof.
+  induction ops as [|op r IH]; intros c obs H; cbn in *; [eauto|].
+  destruct (cstep c op) as [[c1 o]|]; [|discriminate H].
+  destruct (cexec c1 r) as [obs'|] eqn:E; [|discriminate H]. eapply IH; eauto.
+Qed.
+
+Theorem timed_reaches_fine tmo ops c' : crun (mkcst [] 0 tmo) ops = Some c' -> exists l, cents c' = xsteps [] l.
+Proof. intro H. exact (timed_is_interleaving ops (mkcst [] 0 tmo) c' cache_inv_nil H). Qed.
+
+Lemma cstep_T c op c' o : Forall T (cents c) -> cstep c op = Some (c', o) -> Forall T (cents c').
+Proof.
+  intros HT H. unfold cstep in H. zcases H.
+  all: first
+    [ solve [ inv H; exact HT ]
+    | solve [ cbn [xstep] in H; destruct (lookup _ (cents c)); inv H; cbn [cents];
+              first [ exact HT | apply T_remove, HT
+                    | apply Forall_app; split; [exact HT|]; constructor; [split; cbn; auto|constructor] ] ]
+    | solve [ inv H; cbn [cents xstep fst]; apply T_clear_flush, HT ]
+    | solve [ match type of H with context[?d <? 0] => destruct (d <? 0); [discriminate H|] end;
+              inv H; cbn [cents]; apply T_adv, HT ] ].
+Qed.
+Lemma crun_T : forall ops c c', Forall T (cents c) -> crun c ops = Some c' -> Forall T (cents c').
+Proof.
+  induction ops as [|op r IH]; intros c c' HT H; cbn [crun] in H; [inv H; exact HT|].
+  destruct (cstep c op) as [[c1 o]|] eqn:E; [|discriminate H]. exact (IH c1 c' (cstep_T c op c1 o HT E) H).
+Qed.
+
+(* the property on the states of the driver semantics (quiescent points: no callback outstanding) *)
+Theorem timed_entries tmo ops c' e : crun (mkcst [] 0 tmo) ops = Some c' -> In e (cents c') ->
+  0 <= ecb e <= 1 /\ epend e = false /\
+  (1 <= eret e -> eret e = 1 /\ ecb e = 0) /\
+  (is_expired e = true \/ ewant e = true -> ecb e = 1 /\ eret e = 0) /\
+  eret e + eclr e + b2z (negb (ein e) && is_expired e) = b2z (negb (ein e)).
+Proof.
+  intros H He. destruct (timed_reaches_fine tmo ops c' H) as (l & E). rewrite E in He.
+  assert (P : epend e = false).
+  { pose proof (crun_T ops (mkcst [] 0 tmo) c' (Forall_nil T) H) as HT. rewrite Forall_forall in HT. rewrite <- E in He.
+    exact (proj1 (HT e He)). }
+  destruct (cache_callback_at_most_once l e He) as (A1 & A2).
+  pose proof (cache_removed_never_called l e He) as B.
+  pose proof (cache_expired_or_cleared_called_once l e He) as C.
+  destruct (cache_one_owner l e He) as (_ & _ & D).
+  rewrite P in *. cbn [b2z] in *. split; [lia|]. split; [reflexivity|]. split; [|split; [|exact D]].
+  - intro R1. destruct (B R1) as (X1 & _ & X2 & _). auto.
+  - intro X. destruct (C X) as (_ & Y1 & Y2). split; [lia|exact Y2].
 Qed.
